@@ -56,7 +56,11 @@ theorem C33_witness_arm_test_crash :
     armOutcome genTable [(.mono genTable.iNat, false), (.mono genTable.iObj, false)] (.str 0) = none ∧
     -- the integer literal arm `10` raises as well, the enum arm `(e: {10})` of the same type does not
     armOutcome genTable [(.refine genTable.iNat (.eq 10), true), (.mono genTable.iObj, false)] (.str 0) = none ∧
-    armOutcome genTable [(.refine genTable.iNat (.eq 10), false), (.mono genTable.iObj, false)] (.str 0) = some 1 := by
+    armOutcome genTable [(.refine genTable.iNat (.eq 10), false), (.mono genTable.iObj, false)] (.str 0) = some 1 ∧
+    -- and without any string: `f(x: Int) = match x: 0 -> 0; _ -> 1` is accepted, -1 is an `Int`, the literal arm raises for it
+    accepted genTable id (.mono genTable.iInt) [.refine genTable.iNat (.eq 0), .mono genTable.iObj] = true ∧
+    armOutcome genTable [(.refine genTable.iNat (.eq 0), true), (.mono genTable.iObj, false)] (.int (-1)) = none ∧
+    armOutcome genTable [(.refine genTable.iNat (.eq 0), false), (.mono genTable.iObj, false)] (.int (-1)) = some 1 := by
   decide +kernel
 
 /-- recorded finding `C33-nonexhaustive-accepted` — the property is FALSE of the code: `f(x: 0..3) = match x: (s: Str) -> 0; (i: 0..2) -> 1`
